@@ -1,7 +1,7 @@
 (** Statements of the C13 theorems spelled out again, so that a theorem cannot be silently
     weakened: this file stops compiling if a statement in Props/C13.v changes. *)
 From Coq Require Import String List ZArith NArith.
-From BV Require Import Base.Common Model.SubId Proofs.SubId Corr.C13 Proofs.SubIdOracle Props.C13.
+From BV Require Import Base.Common Model.SubId Proofs.SubId Corr.C13 Proofs.SubIdOracle Proofs.SubIdL2 Props.C13.
 Import ListNotations.
 Local Open Scope string_scope.
 
@@ -71,6 +71,26 @@ Check eq_refl : routed_pair BinanceFuturesUsd SKLiquidations = true.
 Check eq_refl : routed_pair ExOther SKPublicTrades = false.
 Check eq_refl : venue_serves GateioOptions KSpot = false.
 Check eq_refl : supports_triple Kraken KSpot SKOrderBooksL1 = true.
+Check C13_l2_attributed : forall e subs snaps t s l m,
+  In s subs -> strikes_plain subs -> distinct_l2_symbols e subs ->
+  l2_init e subs snaps = Some t ->
+  snap_of snaps (fst s) = Some (fst s, l) ->
+  l_sym m = venue_symbol e (snd s) ->
+  first_update_valid e l m = true ->
+  snd (l2_transform e t m) = L2Out [l2_event e (fst s) m].
+Check C13_l2_rejected : forall e subs snaps t m,
+  strikes_plain subs -> l2_init e subs snaps = Some t ->
+  (forall s, In s subs -> venue_symbol e (snd s) <> l_sym m) ->
+  l2_transform e t m = (t, L2Out [L2Unident (sub_id l2_channel (l_sym m))]).
+Check C13_l2_never_another : forall e subs snaps t ms,
+  l2_init e subs snaps = Some t ->
+  Forall2 (fun m o => forall l k ex te sq ten bs as_, o = L2Out l -> In (L2Ev k ex te sq ten bs as_) l ->
+             ex = e /\ exists s, In s subs /\ fst s = k /\ l2_sid e s = sub_id l2_channel (l_sym m))
+          ms (l2_run e t ms).
+Check eq_refl : l2_channel = "@depth@100ms".
+Check eq_refl : first_update_valid BinanceSpot 100 (mkL2 "BTCUSDT" 99 101 0 0 0 [] []) = true.
+Check eq_refl : first_update_valid BinanceSpot 100 (mkL2 "BTCUSDT" 99 100 0 0 0 [] []) = false.
+Check eq_refl : first_update_valid BinanceFuturesUsd 100 (mkL2 "BTCUSDT" 99 100 0 0 0 [] []) = true.
 
 (* the definitions the statements rest on, spelled out / pinned by evaluation *)
 Check eq_refl : distinct_venue_symbols = fun e sk subs =>
